@@ -22,10 +22,13 @@ particular for the instance `lcOps h t` (linear combinations of cobordisms over 
                     (it needs `Tng::connect` = symmetric difference of end points and functoriality of the
                     structural cobordism operations); it is evaluated per instance on both sides (`wf=` in every
                     reply: `Cx.wfCheck` in the driver, `validate()` in the harness).
- (d) `d ∘ d = 0`  : preserved by `eliminate` when the edge labels live in a ring and the edge operations are the
-                    ring operations (the statement of `C05Deloop.eliminate_step` for arbitrarily many neighbours,
-                    transported to the model's graph bookkeeping).  That `lcOps` IS such an algebra (associativity
-                    and bilinearity of stacking followed by `part_eval`) is NOT proved.
+ (d) `d ∘ d = 0`  : NOT proved for the model's vertex lists.  What is proved: `eliminate_is_elimEntry` identifies the
+                    model's step with `Deloop.elimEntry`, for which `Props/C05Deloop.eliminate_step` (1×1 blocks) and
+                    `eliminate_step_blocks` (arbitrary finite blocks of neighbours, matrix form) show that the reduced
+                    neighbours still compose to zero.  Missing: the transport of the block statement to sums over
+                    the model's vertex list, and that `lcOps` is a lawful (associative, bilinear) edge algebra.
+                    `d ∘ d = 0` of every final complex is evaluated per script (`check_complex` on the library side,
+                    homology of the model's matrices = library = cube of resolutions in the driver).
 -/
 namespace Yuiv.C05.Engine
 open Yuiv Yuiv.C05 Yuiv.C05.Tng
@@ -151,6 +154,25 @@ theorem deloop_factors {E : Type} (ops : EdgeOps E) (cx cx' : Cx E) (k : TKey) (
         · simp [h1] at h
         · simp [h1] at h
       · simp [hcl] at h
+
+/-- the vertices after `deloop(k, r)`: the old keys in their order with `k` renamed to `k·X`, followed by the extra
+copy `k·1` for a circle without the base point (`upd.drop 1`); nothing else appears or disappears -/
+theorem deloop_keys {E : Type} (ops : EdgeOps E) (cx cx' : Cx E) (k : TKey) (r : Nat) (upd : List TKey)
+    (h : cx.deloop ops k r = .ok (upd, cx')) :
+    cx'.verts.map (·.1) = (cx.verts.map (·.1)).map (renameFn k (k.push .X)) ++ upd.drop 1 := by
+  obtain ⟨t, c, _, _, _, hupd, c1, h1, hb, hu⟩ := deloop_factors ops cx cx' k r upd h
+  have k1 := renameKey_keys cx c1 k (k.push .X) h1
+  by_cases hbase : cx.containsBase c = true
+  · have := deloopWith_keys ops c1 cx' _ _ _ _ (hb hbase)
+    rw [this, k1, hupd]
+    simp [Deloop.deloopCopies, hbase]
+  · have hbase' : cx.containsBase c = false := by simpa using hbase
+    obtain ⟨c2, c3, h2, h3, h4⟩ := hu hbase'
+    have e2 := duplicateKey_keys c1 c2 _ _ h2
+    have e3 := deloopWith_keys ops c2 c3 _ _ _ _ h3
+    have e4 := deloopWith_keys ops c3 cx' _ _ _ _ h4
+    rw [e4, e3, e2, k1, hupd]
+    simp [Deloop.deloopCopies, hbase', Deloop.copyI]
 
 /-- what one `deloop_with(k, r, birth, death)` does: the circle `r` leaves the tangle of `k` (all other vertices
 untouched); every edge INTO `k` is composed with the cap carrying `death`, every edge OUT OF `k` with the cup
